@@ -107,6 +107,13 @@ impl Cell {
     pub fn with_data(&self, d: &str) -> Cell {
         Cell { data: SStr::new(d), fg: self.fg.clone(), bg: self.bg.clone(), flags: self.flags }
     }
+    /// Like from_opts but WITHOUT normalising the text (for implementation-vs-implementation
+    /// differentials, where the stored string itself is the observable).
+    pub fn from_opts_raw(c: &CharOpts) -> Cell {
+        let mut cell = Cell::from_opts(&CharOpts { data: String::new(), ..c.clone() });
+        cell.data = SStr::new(&c.data);
+        cell
+    }
     pub fn from_opts(c: &CharOpts) -> Cell {
         let mut flags = 0;
         if c.bold {
@@ -235,6 +242,15 @@ pub struct Snap {
 pub const DECSCNM: u32 = 5 << 5;
 
 pub fn snap(s: &Screen) -> Snap {
+    snap_with(s, false)
+}
+
+/// Observable view with the cell texts exactly as stored (no NFC normalisation).
+pub fn snap_raw(s: &Screen) -> Snap {
+    snap_with(s, true)
+}
+
+fn snap_with(s: &Screen, raw: bool) -> Snap {
     let reverse = s.mode.contains(&DECSCNM);
     let blank = Cell::blank(reverse);
     let mut grid = Vec::with_capacity(s.lines as usize);
@@ -250,7 +266,7 @@ pub fn snap(s: &Screen) -> Snap {
                 for x in 0..s.columns {
                     match line.get(&x) {
                         None => row.push(blank.clone()),
-                        Some(c) => row.push(Cell::from_opts(c)),
+                        Some(c) => row.push(if raw { Cell::from_opts_raw(c) } else { Cell::from_opts(c) }),
                     }
                 }
             }
